@@ -85,6 +85,12 @@ def run(chk, replay=None):
     thorough = chk.tier == "thorough"
     w = core.workdir("c14")
     workers = min(8, core.NCPU)
+    if replay and str(replay.get("event", {}).get("case", "")).startswith("lsteps/"):
+        return _lanczos_steps(chk, w, thorough, replay)
+    if os.environ.get("VERIF_C14_ONLY", "") == "lsteps":          # development switch: only the recorded Lanczos runs
+        chk.notes.append("VERIF_C14_ONLY=lsteps: partial run (Lanczos step traces only)")
+        chk.rule = "partial run"
+        return _lanczos_steps(chk, w, thorough, None, models=False)
     # (M) kernel_gauss as a state machine, started on every matrix of the given dimensions
     if not replay:
         for cfg in FULL + QUICK + (THOROUGH if thorough else []):
@@ -189,5 +195,296 @@ def run(chk, replay=None):
         "(=> |K| <= ncols - rank) and any larger independent kernel family the harness's own elimination finds (none found => "
         "equality rests on that elimination not missing one)" % RANK_MAX,
     ]
+    if not replay and LANCZOS_STEPS:
+        _lanczos_steps(chk, w, thorough, None)
     chk.notes.append("a call that does not return before the deadline (300 s; normal < 5 s; after two such calls no further Lanczos call is made) is reported as drift, not as a violation: "
                      "the property speaks about returned vectors")
+
+
+# ------------------------------------------------------------------------------------------------
+# growth item "lanczos-steps": a model of the block Lanczos iteration (spec/gf2/Lanczos.tla) and the
+# validation of recorded runs of kernel_lanczos, block by block, against it (spec/gf2/LanczosTrace.tla).
+# Everything judged here is implementation-shaped => Drift; the returned vectors of the same calls go
+# through Gf2Trace.tla (Strict) like every other kernel_lanczos event.
+# ------------------------------------------------------------------------------------------------
+LANCZOS_STEPS = os.environ.get("VERIF_NO_LSTEPS", "") not in ("1", "true", "yes")
+
+L_QUICK = ["MC_Lanczos_q_3x3_w2.cfg", "MC_Lanczos_q_5x6_w2.cfg", "MC_Lanczos_q_6x6_w3.cfg"]
+L_THOROUGH = ["MC_Lanczos_t_3x4_w2.cfg", "MC_Lanczos_t_4x6_w2.cfg", "MC_Lanczos_t_4x6_w3.cfg", "MC_Lanczos_t_6x7_w2.cfg",
+              "MC_Lanczos_t_7x7_w3.cfg"]
+# broken variants of the model (non-vacuity): TLC must report exactly this invariant
+L_BROKEN = [("MC_Lanczos_nv_nofilter.cfg", "ResultOK"), ("MC_Lanczos_nv_finalq.cfg", "ResultOK"),
+            ("MC_Lanczos_nv_badselect.cfg", "SelectionOK"), ("MC_Lanczos_nv_threeterm.cfg", "WOrthogonal")]
+# reachability questions on the unchanged model: the "invariant" is the negation of what must be reachable
+L_ASK = [("MC_Lanczos_ask_classical.cfg", "ClassicalInclusion"), ("MC_Lanczos_ask_classical_noalt.cfg", "ClassicalInclusion"),
+         ("MC_Lanczos_ask_fourblocks.cfg", "NeverFourBlocks"), ("MC_Lanczos_ask_skips.cfg", "NeverSkips"),
+         ("MC_Lanczos_ask_kernel.cfg", "NeverFindsKernel"), ("MC_Lanczos_ask_deficient.cfg", "NeverDeficient")]
+
+
+def _lz_weight(e):
+    return 40 if e.get("heavy") or e.get("op") == "lz_init" else 1
+
+
+def _lz_tamper(evs, exclude=()):
+    """Binding demonstration / vacuity self-test of LanczosTrace.tla: one recorded run of the real code,
+    copied and damaged in one place per copy; TLC must reject each copy with the intended tag (and accept
+    the undamaged copy).  Python only edits the copies and compares tags."""
+    runs, order = {}, []
+    for e in evs:
+        if e["case"] not in runs:
+            order.append(e["case"])
+        runs.setdefault(e["case"], []).append(e)
+
+    def fit(c):
+        r = runs[c]
+        its = [e for e in r if e["op"] == "lz_iter"]
+        return (r[0]["op"] == "lz_init" and r[-1]["op"] == "lz_exit" and 8 <= len(its) <= 40
+                and any(e["freed"] for e in its) and any(0 < e["rk"] < 64 for e in its[:-2]))
+    pick = next((c for c in order if c not in exclude and fit(c)), None)
+    if pick is None:
+        return None, []
+    base = runs[pick]
+    out = []
+
+    def add(name, kind, tag, edit):
+        r = copy.deepcopy(base)
+        r = edit(r) or r
+        for e in r:
+            e["case"] = "tamper/" + name
+            e.pop("i", None)
+        r[0]["st_expect"] = [kind, tag]
+        out.extend(r)
+
+    def iters(r):
+        return [e for e in r if e["op"] == "lz_iter"]
+
+    def it_at(r, pred):
+        return next(e for e in iters(r) if pred(e))
+    deficient = lambda e: 0 < e["rk"] < 64 and not e["term"]
+
+    def zero_rowcol(rows, s):
+        rows[s] = []
+        for x in rows:
+            if s in x:
+                x.remove(s)
+    add("valid", "none", "", lambda r: None)
+    add("drop-iteration", "drift", "iter:sequence", lambda r: [e for e in r if not (e["op"] == "lz_iter" and e["idx"] == 3)])
+    add("drop-exit", "drift", "init:previous-run-not-closed", lambda r: r[:-1] + copy.deepcopy(r))
+
+    def e_maskbit(r):
+        it_at(r, lambda e: not e["term"])["mask"].pop()
+    add("mask-bit-lost", "drift", "iter:rank-mask", e_maskbit)
+
+    def e_smaller(r):
+        e = it_at(r, lambda e: not e["term"] and e["idx"] >= 2)
+        e["mask"].pop()
+        e["rk"] -= 1
+    add("selection-not-maximal", "drift", "iter:selection-maximal", e_smaller)
+
+    def e_minor(r):
+        e = it_at(r, lambda e: not e["term"] and e["idx"] >= 2)
+        zero_rowcol(e["gram"], e["mask"][0])
+    add("selected-minor-singular", "drift", "iter:selection-invertible", e_minor)
+
+    def e_asym(r):
+        e = it_at(r, lambda e: not e["term"] and e["idx"] >= 2)
+        g = e["gram"]
+        if 1 in g[0]:
+            g[0].remove(1)
+        else:
+            g[0] = sorted(g[0] + [1])
+    add("gram-asymmetric", "drift", "iter:gram-symmetric", e_asym)
+
+    def e_other(r):
+        # a block with rank < 64 whose selection is replaced by the first rk rows
+        e = it_at(r, deficient)
+        e["mask"] = list(range(e["rk"]))
+    add("first-rows-selected", "drift", "iter:pseudoinverse", e_other)
+
+    def e_proj(r):
+        it_at(r, lambda e: e["idx"] >= 3)["proj"].pop(0)
+    add("projection-lost", "drift", "iter:projections", e_proj)
+
+    def e_freed(r):
+        it_at(r, lambda e: e["freed"])["freed"].pop()
+    add("free-lost", "drift", "iter:freed", e_freed)
+
+    def e_freedflag(r):
+        it_at(r, lambda e: e["freed"])["freed"][0][1] = False
+    add("freed-block-not-orthogonal", "drift", "iter:skip-sound", e_freedflag)
+
+    def e_rev(r):
+        e = it_at(r, lambda e: e["idx"] == 2)
+        e["rev"] = not e["rev"]
+    add("direction", "drift", "iter:direction", e_rev)
+
+    def e_yorth(r):
+        it_at(r, lambda e: e["idx"] == 2)["yorth"] = False
+    add("y-not-orthogonal", "drift", "iter:y-orthogonal", e_yorth)
+
+    def e_term(r):
+        it_at(r, lambda e: e["idx"] == 2)["term"] = True
+    add("termination-flag", "drift", "iter:termination-test", e_term)
+
+    def e_pinv(r):
+        e = it_at(r, lambda e: not e["term"] and e["idx"] >= 2)
+        s = e["mask"][0]
+        e["ginvg"][s] = []
+    add("pseudoinverse", "drift", "iter:pseudoinverse", e_pinv)
+
+    def e_nz(r):
+        e = it_at(r, lambda e: not e["term"] and e["idx"] >= 2)
+        e["nz"].remove(e["mask"][0])
+    add("selected-zero-column", "drift", "iter:selected-nonzero", e_nz)
+
+    def e_small(r):
+        r[0]["nx"] = r[0]["nrows"] = 100
+    add("rank-sum", "drift", "iter:rank-sum", e_small)
+    add("iteration-bound", "drift", "exit:iteration-bound", e_small)
+
+    def e_blocks(r):
+        r[-1]["blocks"] += 1
+    add("exit-blocks", "drift", "exit:sequence", e_blocks)
+
+    def e_kept(r):
+        r[-1]["kept"] = r[-1]["dimker"] + 1
+    add("exit-kept", "drift", "exit:candidates", e_kept)
+
+    def e_ret(r):
+        r[-1]["returned"] = r[-1]["kept"] + 1
+    add("exit-returned", "drift", "exit:returned", e_ret)
+
+    def e_ginit(r):
+        r[0]["gginv"][7] = [6]
+    add("init-inverse", "drift", "init:gram-inverse", e_ginit)
+
+    def e_ginit2(r):
+        zero_rowcol(r[0]["gram"], 5)
+    add("init-singular", "drift", "init:gram-invertible", e_ginit2)
+
+    def e_lsize(r):
+        r[0]["lsize"] = 32
+    add("init-lsize", "drift", "init:lsize", e_lsize)
+    return pick, out
+
+
+def _lanczos_steps(chk, w, thorough, replay, models=True):
+    import concurrent.futures as cf
+    # ---- (M) the model, its broken variants and the reachability questions
+    if not replay and models:
+        jobs = [(c, None, str(chk.seed)) for c in L_QUICK + (L_THOROUGH if thorough else [])]
+        jobs += [(c, inv, "1") for c, inv in L_BROKEN + L_ASK]
+
+        def one(job):
+            cfg, inv, seed = job
+            big = cfg in L_THOROUGH
+            return job, core.model_check("gf2/Lanczos.tla", cfg, workers=(4 if big else 1), timeout=(3000 if big else 600),
+                                         extra=["-seed", seed], expect_error=inv is not None)
+        with cf.ThreadPoolExecutor(max_workers=max(1, min(core.NCPU, 8))) as ex:
+            results = list(ex.map(one, jobs))
+        for (cfg, inv, _), r in results:
+            if inv is None:
+                chk.add_mc(r)
+            else:
+                chk.add_mc(r, invariants_expected_to_hold=False)
+                if r["violated"] != [inv]:
+                    raise core.ToolError("Lanczos model %s: expected TLC to report %s, got %s" % (cfg, inv, r["violated"]))
+        chk.notes.append({"lanczos_model_non_vacuity": "broken variants rejected by TLC: " + ", ".join(
+            "%s -> %s" % (c[len("MC_Lanczos_nv_"):-4], i) for c, i in L_BROKEN)})
+        chk.notes.append({"lanczos_model_reachability": "runs exhibited by TLC on the unchanged model (stated as violated 'never' invariants): "
+                          "a block whose unselected columns were not all selected in the previous block, with and without the alternating "
+                          "rank direction (the classical three-term condition is NOT an invariant of the code: it copes through the carry "
+                          "mask, invariants SkipSound / WOrthogonal / ThreeTermWhenClassical hold); >= 4 blocks; a freed block; a non-empty "
+                          "result; a rank-deficient block"})
+    # ---- (V) recorded runs
+    shapes = os.path.join(w, "shapes.ndjson")
+    if not os.path.exists(shapes):
+        n, r = core.gen_shapes("gf2/Gf2Shapes.tla", "Gf2Shapes_%s.cfg" % chk.tier, shapes)
+    steps = os.path.join(w, "lsteps.ndjson")
+    lres = os.path.join(w, "lsteps_results.ndjson")
+    outp = core.run_driver(["c14", "--seed", chk.seed, "--tier", chk.tier, "--shapes", shapes, "--lsteps", steps], lres, timeout=7000)
+    drv = json.loads(outp.strip().splitlines()[-1])
+    if replay:
+        core.replay_filter(lres, replay)
+        chk.add_tv(core.validate_trace("gf2/Gf2Trace.tla", "Gf2Trace.cfg", lres, timeout=3000, weight=_weight, tag="lanczos-steps-results"))
+        return
+    # the property itself on the vectors returned by the hooked calls (Strict)
+    res = core.validate_trace("gf2/Gf2Trace.tla", "Gf2Trace.cfg", lres, timeout=3000, weight=_weight, tag="lanczos-steps-results")
+    chk.add_tv(res)
+    # the steps (Drift)
+    sres = core.validate_trace("gf2/LanczosTrace.tla", "LanczosTrace.cfg", steps, group_key="case", timeout=3000,
+                               weight=_lz_weight, tag="lanczos-steps")
+    chk.add_tv(sres)
+    sevs = core.read_ndjson(steps)
+    revs = core.read_ndjson(lres)
+    # binding demonstration on damaged copies of a recorded run
+    # (a run that the specification already rejects somewhere is no basis for the self-test)
+    pick, tam = _lz_tamper(sevs, exclude={rj["event"].get("case") for rj in sres["rejects"]})
+    if pick is None:
+        chk.notes.append("lanczos-steps: no recorded run suitable for the tamper self-test (accepted by the specification, 8..40 blocks, a freed block, a rank-deficient block)")
+    else:
+        tpath = os.path.join(w, "lsteps_tamper.ndjson")
+        core.write_ndjson(tpath, tam)
+        tres = core.validate_trace("gf2/LanczosTrace.tla", "LanczosTrace.cfg", tpath, group_key="case", timeout=3000,
+                                   weight=_lz_weight, tag="lanczos-steps-selftest")
+        got = {}
+        for rj in tres["rejects"]:
+            got.setdefault(rj["event"]["case"], set()).add((rj["kind"], rj["tag"]))
+        ncopies = 0
+        for e in tam:
+            if "st_expect" not in e:
+                continue
+            ncopies += 1
+            kind, tag = e["st_expect"]
+            g = got.get(e["case"], set())
+            ok = (not g) if kind == "none" else ((kind, tag) in g)
+            if not ok:
+                raise core.ToolError("LanczosTrace self-test: %s expected %s/%s, TLC said %s" % (e["case"], kind, tag, sorted(g)))
+        chk.notes.append({"lanczos_steps_selftest": "recorded run %s copied %d times, each copy damaged in one field / one event dropped: "
+                          "every copy rejected by the intended clause, the undamaged copy accepted" % (pick, ncopies)})
+        chk.mc.append({"module": "LanczosTrace(selftest)", "cfg": "LanczosTrace.cfg", "generated": tres["states"],
+                       "distinct": tres["states"], "wall_s": tres["wall_s"], "violated": []})
+    # evidence
+    ops = {}
+    for e in sevs:
+        ops[e["op"]] = ops.get(e["op"], 0) + 1
+    its = [e for e in sevs if e["op"] == "lz_iter"]
+    exits = [e for e in sevs if e["op"] == "lz_exit"]
+    inits = [e for e in sevs if e["op"] == "lz_init"]
+
+    def rk_class(e):
+        return "0 (termination)" if e["rk"] == 0 else "64" if e["rk"] == 64 else "60..63" if e["rk"] >= 60 else "1..59"
+    by_rk, by_proj = {}, {}
+    for e in its:
+        by_rk[rk_class(e)] = by_rk.get(rk_class(e), 0) + 1
+        k = str(len(e["proj"]))
+        by_proj[k] = by_proj.get(k, 0) + 1
+    chk.cov["lanczos_steps"] = {
+        "ops": ops,
+        "runs": drv.get("runs", 0),
+        "runs_by_columns": {k: sum(1 for e in inits if _size_class(e) == k) for k in sorted({_size_class(e) for e in inits})},
+        "blocks_by_rank_of_selection": by_rk,
+        "blocks_by_number_of_projections": by_proj,
+        "blocks_with_matrices_checked": sum(1 for e in its if e.get("heavy")),
+        "blocks_freed": sum(len(e["freed"]) for e in its),
+        "max_blocks_in_a_run": max([e["blocks"] for e in exits] or [0]),
+        "candidates_before_after_filtering": [sum(e["dimker"] for e in exits), sum(e["kept"] for e in exits)],
+        "runs_with_null_candidates_filtered": sum(1 for e in exits if e["kept"] < e["dimker"]),
+        "classical_inclusion_failures_noted": sum(1 for n in sres["notes"] if len(n) > 1 and n[1] == "classical-inclusion-fails"),
+        "result_events": len(revs),
+        "skipped_outside_domain": drv.get("lanczos_skipped_outside_domain", 0),
+    }
+    chk.count(revs, lambda e: None if ("outcome" in e or not e.get("k")) else
+              (e["op"], hashlib.sha1(json.dumps([e["nrows"], e["m"]]).encode()).hexdigest()[:16]))
+    big = max(exits, key=lambda e: e["blocks"], default=None)
+    if big is not None:
+        chk.sample({"op": "lz_exit", "case": big["case"], "blocks": big["blocks"], "candidates": big["dimker"], "kept": big["kept"]})
+    chk.assumptions += [
+        "lanczos-steps: the hooks of src/matrix/gf2.rs (cfg yamaquasi_verif) report the values the code computed (Gram matrices, masks, "
+        "projected / freed blocks) and three products computed only for the record (Gram * inverse, pseudoinverse * masked Gram, "
+        "W^T Q Y = 0); hexadecimal words are turned into lists of bit positions by the harness",
+        "lanczos-steps: Lanczos.tla returns Y*k for EVERY non-zero k of ker(Mx*Y) (a superset of any basis kernel_gauss may pick); the "
+        "pseudoinverse is modelled by its definition (unique), not by the elimination that computes it",
+        "lanczos-steps: sampled configurations of Lanczos.tla draw matrices / initial blocks with RandomSubset under TLC's -seed "
+        "(the check's seed for the models that must hold, seed 1 for the broken variants and reachability questions)",
+    ]
